@@ -354,7 +354,16 @@ func opFileFault(st *state, args []string) []string {
 			lost++
 		}
 	}
-	return []string{fmt.Sprintf("res ok lostacked=%d", lost)}
+	var ack []int
+	for i := range acked {
+		ack = append(ack, i)
+	}
+	sort.Ints(ack)
+	var acks []string
+	for _, i := range ack {
+		acks = append(acks, strconv.Itoa(i))
+	}
+	return []string{fmt.Sprintf("res ok lostacked=%d", lost), "acked " + strings.Join(acks, ",")}
 }
 
 // filestress <workers> <msgs-per-worker> <rotations> <sep-hex>: unscheduled concurrent senders on the real
